@@ -1154,7 +1154,7 @@ static void CodeMACEXP(Word Index) {
         if (OK) {
             if (!ChkLstMacroExpMod(&LstMacroExpMod)) {
                 WrError(ErrNum_ConflictingMacExpMod);
-            } else if (Index) { /* Override */
+            } else if (Index & 0x0f) { /* Override (0x10 only marks the legacy name MACEXP) */
                 LstMacroExpModOverride = LstMacroExpMod;
             } else {
                 /* keep LstMacroExp and LstMacroExpModDefault in sync! */
